@@ -30,6 +30,7 @@ type cCase struct {
 	Bumps  [][]bool `json:"bumps"` // revision r>0: package i gets a new version + new content
 	Builds []cBuild `json:"builds"`
 	Conc   int      `json:"conc,omitempty"`  // concurrent recovery builds after the sequence
+	ConcCrash int   `json:"conc_crash,omitempty"` // one of them is killed at this marker
 	Plant  string   `json:"plant,omitempty"` // trunc-ctl | trunc-dat | empty-tar | cut-tar | foreign | trunc-index | stale-apk
 }
 
@@ -108,10 +109,22 @@ func (cacheSuite) Gen(r *Rng, i int, tier string) any {
 		c.Builds = append(c.Builds, cBuild{Rev: rev, HeadRev: -1, Crash: 3 + 9*j + 8}, cBuild{Rev: rev, HeadRev: -1, Crash: 2})
 		// (with a cold cache; with a warm one the markers are beyond the build and nothing happens)
 	}
-	c.Builds = append(c.Builds, cBuild{Rev: rev, HeadRev: -1}, cBuild{Offline: true})
 	if r.Chance(50) {
 		c.Conc = r.Range(2, 4)
+		if c.Conc >= 3 && r.Chance(50) {
+			c.ConcCrash = r.Range(1, coldMarkers())
+		}
+		switch x := r.Intn(100); {
+		case x < 15:
+			// all builders start on an empty directory
+			c.Builds = nil
+			return c
+		case x < 75:
+			// the builders recover from whatever the killed builds left behind
+			return c
+		}
 	}
+	c.Builds = append(c.Builds, cBuild{Rev: rev, HeadRev: -1}, cBuild{Offline: true})
 	return c
 }
 
@@ -350,20 +363,27 @@ func (cacheSuite) Run(raw json.RawMessage) []Step {
 				last = b.Rev
 			}
 		}
-		// make the recovery non-trivial: start again from a crashed state half of the time
 		var waits []func() childRes
 		for i := 0; i < c.Conc; i++ {
 			e.nchild++
-			waits = append(waits, startChild(e.scratch, e.nchild, childOpts{World: e.world, Key: e.key, Cache: cache, HeadRev: last, GetRev: last, Procs: 4}))
+			o := childOpts{World: e.world, Key: e.key, Cache: cache, HeadRev: last, GetRev: last, Procs: 4}
+			if i == 0 {
+				o.Crash = c.ConcCrash // one builder is killed while the others keep going
+			}
+			waits = append(waits, startChild(e.scratch, e.nchild, o))
 		}
 		var couts []string
-		for _, w := range waits {
-			couts = append(couts, e.outcome(w()))
+		for i, w := range waits {
+			o := e.outcome(w())
+			if i == 0 && c.ConcCrash > 0 && o == "crash" {
+				continue
+			}
+			couts = append(couts, o)
 		}
 		off := e.outcome(e.child(childOpts{Cache: cache, Offline: true}))
 		cstate := abstractCache(cache, e.known)
 		steps = append(steps, Step{Line: strings.Join([]string{"cache-conc", fmt.Sprintf("ok:img%d", e.revCid[last]), cstate, strings.Join(couts, ","), off}, "\t"),
-			Go: "-", Mode: "verdict", NoImpl: true, Tags: []string{fmt.Sprintf("concurrent:%d", c.Conc)},
+			Go: "-", Mode: "verdict", NoImpl: true, Tags: concTags(c, len(c.Builds)),
 			Desc: fmt.Sprintf("%d concurrent recovery builds + offline after builds=%s", c.Conc, strings.Join(builds, ";"))})
 	}
 	return steps
@@ -430,4 +450,15 @@ func runPlant(c *cCase, e *cacheEnv) []Step {
 	off := e.outcome(e.child(childOpts{Cache: cache, Offline: true}))
 	return []Step{{Line: strings.Join([]string{"cache-plant", c.Plant, "ok:img1", on, off}, "\t"), Go: "-", Mode: "verdict", NoImpl: true,
 		Tags: []string{"plant:" + c.Plant, "plant-online:" + on, "plant-offline:" + off}, Desc: "planted " + c.Plant + " → online " + on + ", offline " + off}}
+}
+
+func concTags(c cCase, nb int) []string {
+	t := []string{fmt.Sprintf("concurrent:%d", c.Conc)}
+	if c.ConcCrash > 0 {
+		t = append(t, "concurrent-with-kill")
+	}
+	if nb == 0 {
+		t = append(t, "concurrent-cold")
+	}
+	return t
 }
